@@ -4,7 +4,7 @@ from __future__ import annotations
 
 import ast
 
-from sa.astutil import call_name, guards_of, is_const, is_neg_inf, parent_map, u
+from sa.astutil import under_flag, call_name, guards_of, is_const, is_neg_inf, parent_map, u
 from sa.defuse import ReachingDefs
 from sa.model import AnalysisError, own_calls, own_nodes
 from sa.resolve import bind_args
@@ -158,19 +158,23 @@ def run(ctx: Ctx):
     dec = [n for n in own_nodes(fwd.node) if isinstance(n, ast.Assign) and isinstance(n.value, ast.BinOp)
            and isinstance(n.value.op, ast.Sub) and u(n.targets[0]) == u(n.value.left)
            and u(n.targets[0]) == sl.slot_name(sl.adv_assign, (1,))]
-    col.ob("G13", "S4", f"{where}::finished-paths-length-frozen", len(dec) == 1 and "gather" in u(dec[0].value.right),
+    from sa.inline import Inliner as _InlF
+    inl_fw = _InlF(fwd.node, rd)
+    col.ob("G13", "S4", f"{where}::finished-paths-length-frozen", len(dec) == 1 and "gather" in inl_fw.text(dec[0].value.right),
            "the length of a path that had finished before the step is not decremented back (lengths would count "
            "the re-emitted eos)", rel, dec[0].lineno if dec else fwd.line, sample=u(dec[0]) if dec else None)
     # the "already finished" mask: last token == eos AND the path is non-empty; the gather index is (len - 1)
     # clamped at 0, so the validity test must be exactly len - 1 >= 0 (len > 0)
     em = [n for n in own_nodes(fwd.node) if isinstance(n, ast.Assign) and isinstance(n.value, ast.BinOp)
-          and isinstance(n.value.op, ast.BitAnd) and "self.eos" in u(n.value) and "gather" in u(n.value)]
+          and isinstance(n.value.op, ast.BitAnd) and "self.eos" in inl_fw.text(n.value) and "gather" in inl_fw.text(n.value)]
     okm = False
     detail = None
     if em:
-        cmpn = [x for x in (em[0].value.left, em[0].value.right) if isinstance(x, ast.Compare) and "self.eos" not in u(x)]
-        idx = [x for x in ast.walk(em[0].value) if isinstance(x, ast.Call) and isinstance(x.func, ast.Attribute)
-               and x.func.attr == "clamp" and any(k.arg == "min" and u(k.value) == "0" for k in x.keywords)]
+        emv = inl_fw.expand(em[0].value)  # the gather index / the gathered token may carry names of their own
+        cmpn = [x for x in (emv.left, emv.right) if isinstance(x, ast.Compare) and "self.eos" not in u(x)]
+        idx = [x for x in ast.walk(emv) if isinstance(x, ast.Call) and isinstance(x.func, ast.Attribute)
+               and ((x.func.attr == "clamp" and any(k.arg == "min" and u(k.value) == "0" for k in x.keywords))
+                    or (x.func.attr == "clamp_min" and [u(a_) for a_ in x.args] == ["0"]))]
         if len(cmpn) == 1 and len(idx) == 1:
             c_, ix = cmpn[0], idx[0].func.value
             detail = (u(ix), u(c_))
@@ -201,7 +205,8 @@ def run(ctx: Ctx):
             if isinstance(n, ast.Assign) and isinstance(n.value, ast.Call) and call_name(n.value) == "torch.cat" \
                     and isinstance(n.value.args[0], (ast.List, ast.Tuple)) and "log_probs" in u(n.targets[0]):
                 n_ += 1
-                e = n.value.args[0].elts[1]
+                from sa.inline import Inliner as _Inl
+                e = _Inl(f_.node, rdx).expand(n.value.args[0].elts[1])
                 ok = isinstance(e, ast.Call) and call_name(e).split(".")[-1] in ("new_full", "full") \
                     and len(e.args) >= 2 and is_neg_inf(e.args[1])
                 col.ob("G13", "S4", f"{rel}::{tag}::unusable-slots=-inf", ok,
@@ -251,12 +256,13 @@ def _all_paths_done_ignores_empty_slots(ctx: Ctx):
     sites = []
     for n in own_nodes(f.node):
         if isinstance(n, ast.Call) and isinstance(n.func, ast.Attribute) and n.func.attr == "all" and n.args and u(n.args[0]) == "1" \
-                and any(u(t) == "self.finish_all_paths" and pol for t, pol in guards_of(pm, n)):
+                and under_flag(guards_of(pm, n), "self.finish_all_paths", True):
             sites.append(n)
     if len(sites) != 1:
         raise AnalysisError(f"C04: expected one all-paths reduction under finish_all_paths, found {len(sites)}")
-    red = sites[0].func.value
-    der = rd.derives(red)
+    from sa.inline import Inliner
+    red = Inliner(f.node, rd).expand(sites[0].func.value)  # `no_mass = scores == -inf` may carry a name
+    der = rd.derives(sites[0].func.value)
     mentions = any(isinstance(x, ast.Name) and x.id == score for x in ast.walk(red)) or score in {getattr(d, "name", None) for d in der.defs}
     neg_inf = any(is_neg_inf(x) for x in ast.walk(red)) or any(
         isinstance(c, ast.Call) and isinstance(c.func, ast.Attribute) and c.func.attr in ("isinf", "isneginf", "isfinite") for c in ast.walk(red))
